@@ -1080,6 +1080,8 @@ impl Matcher {
         #[allow(non_snake_case)]
         let PROCESS_BUFFER_DEADLINE: Duration = crate::verif::buffer_deadline();
 
+        #[cfg(feature = "verif")]
+        let _verif_loop = crate::verif::MatcherLoopGuard;
         info!(sub_id = %self.id, "Starting loop to run the subscription");
         {
             let (lock, cvar) = &*self.state;
